@@ -252,9 +252,12 @@ func propC17(w *World, r *Report) {
 							}
 						}
 						if bo.Op == token.EQL && g.then {
-							for v := range backSlice(bo.Y) {
-								if gl, ok := v.(*ssa.Global); ok && gl.Name() == "EOF" {
-									gotEOF = true
+							// err == io.EOF, either way round
+							for _, side := range []ssa.Value{bo.X, bo.Y} {
+								for v := range backSlice(side) {
+									if gl, ok := v.(*ssa.Global); ok && gl.Name() == "EOF" {
+										gotEOF = true
+									}
 								}
 							}
 						}
